@@ -2,7 +2,7 @@
    only.  The model (model/Concat.v) is the repaired src/concat/mod.rs. *)
 From Coq Require Import NArith List.
 From V Require Import lib.Words model.Concat model.ConcatRun spec.ConcatSpec proofs.Concat_proofs proofs.Concat_inv
-  proofs.Concat_run proofs.Concat_findings proofs.Concat_delay.
+  proofs.Concat_run proofs.Concat_findings proofs.Concat_delay proofs.Concat_slicing proofs.Concat_glue.
 Import ListNotations.
 Open Scope N_scope.
 
@@ -37,43 +37,44 @@ Theorem C12_ffi_stream : forall s input out, Inv s ->
 Proof. exact ffi_stream_is_native. Qed.
 Print Assumptions C12_ffi_stream.
 
-(* The full slicing statement: two protocol-following runs over the same members agree on the
-   emitted bytes and on the final result, whatever the input slicing and the output buffer sizes.
-   `chunked` relates a task list to the member list it slices. *)
-Inductive chunks_of : list N -> list task -> list task -> Prop :=
-  | co_nil : forall rest, chunks_of [] rest rest
-  | co_cons : forall c m rest ts, chunks_of m rest ts -> chunks_of (c ++ m) rest (TChunk c :: ts).
-Inductive script_of : list (list N) -> list task -> Prop :=
-  | so_end : script_of [] [TFinish]
-  | so_member : forall m ms ts ts', script_of ms ts -> chunks_of m ts ts' -> script_of (m :: ms) (TFile :: ts').
-Definition enough_fuel (fuel : nat) (caps : list N) (percall : bool) (ts : list task) (s0 : BroCatli) : Prop :=
-  rr_final (run_native fuel caps percall false [] ts s0) <> Looped.
-Definition C12_slicing_stmt : Prop :=
-  forall (members : list (list N)) ts1 ts2 fuel1 fuel2 caps1 caps2 pc1 pc2 s0,
-    Inv s0 -> Forall bytes_ok members -> script_of members ts1 -> script_of members ts2 ->
-    enough_fuel fuel1 caps1 pc1 ts1 s0 -> enough_fuel fuel2 caps2 pc2 ts2 s0 ->
-    let r1 := run_native fuel1 caps1 pc1 false [] ts1 s0 in
-    let r2 := run_native fuel2 caps2 pc2 false [] ts2 s0 in
-    rr_final r1 = rr_final r2 /\ rr_emitted r1 = rr_emitted r2.
-(* Proved so far: (1) C12_slicing_partial - along every such run no call panics and the invariant
-   holds, so the two runs differ at most in how the same calls are cut; (2) C12_slicing_body - the
-   statement for the body phase of a member (everything after its realigned header, i.e. all but
-   the first <= 6 bytes): any two sequences of calls, with any buffers, cursors and amounts of free
-   output space (including none), that consume the same bytes write the same bytes and hold back the
-   same two bytes, by the delay-line equation C12_body_delay_line; (3) the analogous equations for
-   the look-ahead collection and for the emission of the realigned header (C12_collect_append,
-   C12_emit_owed); (4) C12_restore / C12_serialize - save/restore never matters.  Missing: that
-   flush_previous_stream and the header realignment depend on the output buffer only through
-   "is there room for one byte" (true by inspection since repair 1b792a2, not yet a lemma), the
-   glue of the four phases inside one `stream` call, and the induction over members including the
-   error answers; that part of the statement
-   is covered by the differential check only (checks/c12.py: every split point, every zero-space
-   call index, 1-byte buffers, against the one-shot run). *)
-Theorem C12_slicing_partial : forall fuel caps percall rall rs tasks s0,
+(* C12_slicing, for the executable protocol driver (model/ConcatRun.v, the one the correspondence
+   check runs against the real code): two scripts over the SAME members - however each member is cut
+   into non-empty input buffers (script_of / chunks_of, proofs/Concat_glue.v) - run with ANY output
+   buffer sizes (including 0), either keeping one buffer until it is reported full or offering a
+   fresh buffer on every call, from any state satisfying the invariant, and with enough call budget
+   not to be cut off, end with the same result and have emitted the same bytes.  (Save/restore is
+   covered by C12_restore, the C ABI by C12_ffi_stream.) *)
+Theorem C12_slicing : forall ms ts1 ts2 fuel1 fuel2 caps1 caps2 pc1 pc2 s0,
+  Inv s0 -> Forall bytes_ok ms -> script_of ms ts1 -> script_of ms ts2 ->
+  rr_final (run_native fuel1 caps1 pc1 false [] ts1 s0) <> Looped ->
+  rr_final (run_native fuel2 caps2 pc2 false [] ts2 s0) <> Looped ->
+  rr_final (run_native fuel1 caps1 pc1 false [] ts1 s0) = rr_final (run_native fuel2 caps2 pc2 false [] ts2 s0) /\
+  rr_emitted (run_native fuel1 caps1 pc1 false [] ts1 s0) = rr_emitted (run_native fuel2 caps2 pc2 false [] ts2 s0).
+Proof. exact run_native_slicing_independent. Qed.
+Print Assumptions C12_slicing.
+
+(* The same statement over the protocol itself rather than over one particular driver: run_calls
+   (proofs/Concat_slicing.v) admits every finite protocol-following sequence of stream / finish calls -
+   any input buffer whose unread part is a prefix of what is left of the member, any output buffer,
+   any cursors, any number of calls that make no progress. *)
+Theorem C12_slicing_protocol : forall s ms e1 rc1 e2 rc2,
+  InvP s -> run_calls s ms e1 rc1 -> run_calls s ms e2 rc2 -> e1 = e2 /\ rc1 = rc2.
+Proof. intros s ms e1 rc1 e2 rc2 HI H1 H2. exact (run_slicing_independent s ms e1 rc1 H1 HI e2 rc2 H2). Qed.
+Print Assumptions C12_slicing_protocol.
+
+(* One member: same bytes, same answer, same state afterwards. *)
+Theorem C12_slicing_member : forall need s rest e1 s1 rc1 e2 s2 rc2,
+  phase_inv s -> member_calls need s rest e1 s1 rc1 -> member_calls need s rest e2 s2 rc2 ->
+  e1 = e2 /\ s1 = s2 /\ rc1 = rc2.
+Proof. exact member_slicing_independent. Qed.
+Print Assumptions C12_slicing_member.
+
+(* Along every protocol-following run no call panics (also part of C16). *)
+Theorem C12_no_panic : forall fuel caps percall rall rs tasks s0,
   Inv s0 -> tasks_ok (Started s0) tasks ->
   rr_final (run_native fuel caps percall rall rs tasks s0) <> Panicked.
 Proof. exact run_native_never_panics. Qed.
-Print Assumptions C12_slicing_partial.
+Print Assumptions C12_no_panic.
 
 (* One call of the body copy, whatever the buffers, cursors and free space: what it wrote followed
    by what it holds back afterwards is what it held back before followed by what it consumed; the
@@ -137,6 +138,16 @@ Theorem C12_slicing_refuted_before_fix_emission :
   <> result (run_orig 300 [1] true false [] [TFile; TChunk m_a; TFile; TChunk [44; 0; 77; 3]; TFinish] (o_init None)).
 Proof. exact C12_slicing_refuted_orig_emission. Qed.
 Print Assumptions C12_slicing_refuted_before_fix_emission.
+
+(* Non-vacuity of the hypotheses of C12_slicing: two different slicings of two real members (a 10-byte
+   appendable stream and a 9-byte catable one), one-shot with an ample buffer vs. cut input with 1-byte
+   and 0-byte output buffers, both from BroCatli::new(), both ending normally *)
+Example C12_slicing_hypotheses_satisfiable :
+  script_of [m_first_ex; m_second_ex] script_a /\ script_of [m_first_ex; m_second_ex] script_b /\
+  Forall bytes_ok [m_first_ex; m_second_ex] /\ Inv bc_new /\
+  rr_final (run_native 100 [64] false false [] script_a bc_new) <> Looped /\
+  rr_final (run_native 400 [1; 0] true false [] script_b bc_new) <> Looped.
+Proof. exact two_scripts. Qed.
 
 (* Non-vacuity of the hypotheses of C12_restore: a two-member script from the initial state *)
 Example C12_hypotheses_satisfiable :
